@@ -56,6 +56,8 @@ type term struct {
 	name    string
 	id      int    // >0 once defined in the solver for the current path
 	h       uint64 // structural hash
+	nv      int8   // variable census memo: 0 unknown, 1 one var (v1), 2 several, 3 none
+	v1      *term
 }
 
 func hmix(h, x uint64) uint64 {
